@@ -79,6 +79,33 @@ func BuildFFSigner(workDir string) (string, error) {
 	return bin, nil
 }
 
+// BuildFFSignerRace builds the same binary with the Go race detector (needs cgo and a C compiler;
+// an error means "not available here", callers skip the race run).
+func BuildFFSignerRace(workDir string) (string, error) {
+	if err := os.MkdirAll(workDir, 0o755); err != nil {
+		return "", err
+	}
+	repo := Repo()
+	for _, f := range []string{"go.mod", "go.sum"} {
+		b, err := os.ReadFile(filepath.Join(repo, f))
+		if err != nil {
+			return "", err
+		}
+		if err := os.WriteFile(filepath.Join(workDir, f), b, 0o644); err != nil {
+			return "", err
+		}
+	}
+	bin := filepath.Join(workDir, "ffsigner_race")
+	cmd := exec.Command("go", "build", "-race", "-modfile="+filepath.Join(workDir, "go.mod"), "-o", bin, "./ffsigner")
+	cmd.Dir = repo
+	cmd.Env = append(goEnv(), "CGO_ENABLED=1")
+	out, err := cmd.CombinedOutput()
+	if err != nil {
+		return "", fmt.Errorf("go build -race ./ffsigner in %s failed: %v\n%s", repo, err, out)
+	}
+	return bin, nil
+}
+
 // ------------------------------------------------------------------------------------------------
 // keys and key directory
 // ------------------------------------------------------------------------------------------------
@@ -383,6 +410,7 @@ type ProxyOptions struct {
 	BackendURL string
 	ChainID    int64         // < 0: not configured (the proxy queries net_version at start)
 	ExtraYAML  string        // appended to the config verbatim
+	Env        []string      // extra environment variables for the process (e.g. GORACE=...)
 	StartWait  time.Duration // default 60s
 }
 
@@ -454,6 +482,9 @@ func startProxyOnce(o ProxyOptions) (*Proxy, error) {
 	p.cmd.Stdout = p.logFile
 	p.cmd.Stderr = p.logFile
 	p.cmd.Dir = o.WorkDir
+	if len(o.Env) > 0 {
+		p.cmd.Env = append(os.Environ(), o.Env...)
+	}
 	if err := p.cmd.Start(); err != nil {
 		return nil, err
 	}
